@@ -17,7 +17,8 @@ RULE = ('fault enumeration over documents of four generated schema families and 
         'control-adjacent text) in every text and attribute position, byte-level faults (truncation at every 1/64 of the '
         'stream, bit flips, duplicated and swapped chunks, premature EOF on non-seekable streams, declared-vs-actual encoding '
         'mismatch); nesting depth and element count swept at limit-1, limit, limit+1 for depth limits {5, 50, 200, 1000} and '
-        'element limits {10, 1000}, eager and lazy, one process per limit setting; each input goes through XMLResource(), '
+        'element limits {10, 1000}, eager and lazy, six document shapes (comments / PIs in prolog, inside, trailing), after settings '
+        'the limits module refuses (0, negative, non-integers) were attempted, one process per limit setting; each input goes through XMLResource(), '
         'is_valid, iter_errors, decode strict and decode lax; a case = (input, api); distinct non-trivial = distinct (source, '
         'mutation kind, value class, api) combinations on mutated inputs')
 ASSUMPTIONS = [
